@@ -56,7 +56,7 @@ Definition vfuel : nat := 9.
 Definition enc_str (s : list Z) : list Z := uvarint vfuel (zlen s) ++ s.
 Definition dec_str (bs : list Z) : option (list Z * list Z) :=
   match read_uvarint vfuel bs with
-  | Some (n, r) => take (Z.to_nat n) r
+  | Some (n, r) => if zlen r <? n then None else take (Z.to_nat n) r
   | None => None
   end.
 
@@ -161,7 +161,7 @@ Definition dec_cent (bs : list Z) : option ((Z * Z) * list Z) :=
   end.
 Definition dec_cents (bs : list Z) : option (list (Z * Z) * list Z) :=
   match read_uvarint vfuel bs with
-  | Some (n, r) => rd_many dec_cent (Z.to_nat n) r
+  | Some (n, r) => if zlen r <? n then None else rd_many dec_cent (Z.to_nat n) r
   | None => None
   end.
 
@@ -210,7 +210,7 @@ Definition arg_read (fx : bool) (prev : arg3) (bs : list Z) : option (arg3 * lis
            | [] => None
            | flag :: r1 =>
                if flag =? 1 then
-                 if len <? 2 then None   (* len -= 2 wraps: not produced by the encoder *)
+                 if (len <? 2) || (zlen r1 <? len - 2) then None   (* len -= 2 wraps: not produced by the encoder *)
                  else match take (Z.to_nat (len - 2)) r1 with
                       | Some (s, t :: r3) =>
                           if t =? 0 then arg_value {| as_str := s; as_int := as_int st; as_val := as_val st |} r3
@@ -220,7 +220,7 @@ Definition arg_read (fx : bool) (prev : arg3) (bs : list Z) : option (arg3 * lis
                else match rd 4 r1 with
                     | Some (i, r2) =>
                         arg_value {| as_str := as_str st; as_int := i; as_val := as_val st |}
-                                  (skipn (Z.to_nat (len - 5)) r2)
+                                  (skipn (Z.to_nat (Z.min (len - 5) (zlen r2))) r2)
                     | None => None
                     end
            end
